@@ -34,6 +34,9 @@ var _ Quantitative = &Log{}
 // NewLog constructs a Log scale. If the arguments are out of range,
 // it returns a RangeErr.
 func NewLog(min, max float64, base int) (Log, error) {
+	if math.IsNaN(min) || math.IsNaN(max) || math.IsInf(min, 0) || math.IsInf(max, 0) {
+		return Log{}, RangeErr("Log scale range must be finite")
+	}
 	if min > max {
 		min, max = max, min
 	}
